@@ -153,6 +153,9 @@ class Theory:
     def after_list_append(self, interp, lst, cur, x):
         pass
 
+    def after_list_concat(self, interp, res, a, b):
+        pass
+
     def str_method(self, interp, s, name):
         return None
 
